@@ -21,7 +21,8 @@ def rows_by_pt(rows):
     return d
 
 
-def spec_check(kind, rows, lf, ops, obs, impl):
+def _spec_scan(kind, rows, lf, ops, obs, impl, skip):
+    """first violation at a step not in `skip`"""
     out = []
     auto_save = True
     synced = True          # the adapter's rows equalled the in-memory policy after the previous call
@@ -33,6 +34,8 @@ def spec_check(kind, rows, lf, ops, obs, impl):
         was_synced, synced = synced, all(sorted(db[pt]) == sorted(mem[pt]) for pt in (0, 1, 2))
         if c == 35:
             auto_save = bool(op[1])
+            continue
+        if i in skip:
             continue
         if c in MGMT:
             if not auto_save:
@@ -86,6 +89,29 @@ def spec_check(kind, rows, lf, ops, obs, impl):
             return out
     return out
 
+
+
+
+def spec_check(kind, rows, lf, ops, obs, impl):
+    """the first violation; a step whose violation is the LISTED finding (update_filtered_policies) does not end the scan:
+    the calls after it are judged too, and a violation there is reported in its own right"""
+    skip = set()
+    known = []
+    for _ in range(len(ops) + 1):
+        out = _spec_scan(kind, rows, lf, ops, obs, impl, skip)
+        if not out:
+            return known
+        if len(out[0]) > 2 and out[0][2] is not None:
+            known = known or out
+            k = out[0][0]
+            o = obs[k]
+            db, mem = rows_by_pt(o[6]), {0: o[3], 1: o[4], 2: o[5]}
+            if any(sorted(db[pt]) != sorted(mem[pt]) for pt in (0, 1, 2)):
+                return known          # the listed finding left store and memory apart: what follows is its consequence
+            skip.add(k)
+            continue
+        return out
+    return known
 
 def make_cases(rng, kn, n, autosave_off_share=0.25):
     cases = []
@@ -166,6 +192,26 @@ def odd_priority_probe(chk):
     chk.extra.setdefault("strata", {})["non_numeric_priority_probe"] = n
 
 
+def after_update_filtered_probe(chk):
+    """whatever update_filtered_policies itself does (listed finding), the calls AFTER it are ordinary calls: every shape of
+    that call (nothing selected / selection replaced / empty replacement / replacement already present), then single and batch
+    adds and removes, judged by the same mirror SPEC (the finding's tag covers the update_filtered call only)"""
+    A = mgmt.ATOMS.a
+    kind = mgmt.KINDS["acl"]
+    r = lambda s_, o_, a_: [A(s_), A(o_), A(a_)]
+    rows = [(0, r("alice", "data1", "read")), (0, r("bob", "data2", "write")), (0, r("alice", "data2", "read"))]
+    shapes = [(8, [], 0, [A("bob")]), (8, [], 0, [A("carol")]), (8, [r("carol", "data1", "read")], 0, [A("alice")]),
+              (8, [r("bob", "data2", "write")], 0, [A("alice")]), (8, [r("carol", "x", "y")], 0, [A("nobody")])]
+    after = [(1, 0, r("erin", "data1", "read")), (3, 0, r("bob", "data2", "write")), (2, 0, [r("dan", "data1", "read"), r("dan", "data2", "read")]),
+             (4, 0, [r("erin", "data1", "read")]), (6, r("dan", "data1", "read"), r("dan", "data1", "write"))]
+    n = 0
+    for sh in shapes:
+        ops = [sh] + after
+        mgmt.run_cases(chk, kind, [(rows, True, ops)], spec_check, label="after-update-filtered", compare_model=False)
+        n += 1
+    chk.extra.setdefault("strata", {})["after_update_filtered_probe"] = n
+
+
 def reload_model_probe(chk):
     """auto-save is the USER's switch: with auto-save off the adapter is not written until save_policy - also after the
     model (and the policy) were reloaded in between.  Implementation-level SPEC on an enforcer built from a model file."""
@@ -209,6 +255,7 @@ def run(chk, n):
     short_rule_probe(chk)
     reload_model_probe(chk)
     odd_priority_probe(chk)
+    after_update_filtered_probe(chk)
     for kn in ("acl", "rbac", "dom", "rbac_res", "prio"):
         cases = make_cases(rng, kn, n)
         by_kind = {}
